@@ -86,7 +86,7 @@ fn mutations(base: &[u8]) -> Vec<Vec<u8>> {
         let mut d = base.to_vec();
         d.remove(i);
         push(d);
-        for &b in MUT_BYTES.iter() {
+        for b in 0..=255u8 {
             if b != base[i] {
                 let mut r = base.to_vec();
                 r[i] = b;
@@ -209,7 +209,7 @@ fn near_misses() -> Vec<Vec<u8>> {
 }
 
 pub fn run(ctx: &mut Ctx) {
-    ctx.rule = "differential against a hand-written recogniser of the stated shape, each line on a fresh parser: (i) every single-point mutation (delete, insert, replace with one of 18 significant bytes, at every position) of six valid sentences, each with the checksum left alone and re-fixed; (ii) ~60 field-level near misses (count 256, fill 6, empty payload, checksum 100 / 0XX / nine digits / lower case, tag-block damage, leading garbage, CR LF ...); (iii) generated well-formed sentences and random byte strings. Recogniser rejects => the parser returns an error; recogniser accepts with numbering 1-of-1 or 1-of-n => Ok. Non-trivial = a line within edit distance 1 of an accepted line, an accepted line, or a malformed line; distinct by the bytes.".into();
+    ctx.rule = "differential against a hand-written recogniser of the stated shape, each line on a fresh parser: (i) every single-point mutation (delete; insert one of 18 significant bytes; replace with every one of the 255 other byte values; at every position) of six valid sentences, each with the checksum left alone and re-fixed; (ii) ~60 field-level near misses (count 256, fill 6, empty payload, checksum 100 / 0XX / nine digits / lower case, tag-block damage, leading garbage, CR LF ...); (iii) generated well-formed sentences and random byte strings. Recogniser rejects => the parser returns an error; recogniser accepts with numbering 1-of-1 or 1-of-n => Ok. Non-trivial = a line within edit distance 1 of an accepted line, an accepted line, or a malformed line; distinct by the bytes.".into();
     ctx.assumptions = vec![
         "lines whose fields contain '*' are excluded (two readings of the statement, see DESIGN.md C02)".into(),
         "an empty tag block '\\\\' is not pinned either way".into(),
@@ -224,7 +224,7 @@ pub fn run(ctx: &mut Ctx) {
             ctx.sweep_case("single-point-mutations", &STD, &Input::History { lines: vec![Line::new(m, false)] }, check);
         }
     }
-    ctx.mark_exhaustive("single-point-mutations", "every deletion, insertion and replacement (18 byte values) at every position of 6 valid sentences, with and without re-fixing the checksum");
+    ctx.mark_exhaustive("single-point-mutations", "every deletion, every insertion of 18 significant byte values and every replacement by all 255 other byte values at every position of 6 valid sentences, with and without re-fixing the checksum");
     for m in near_misses() {
         for decode in [false, true] {
             ctx.sweep_case("near-misses", &STD, &Input::History { lines: vec![Line::new(m.clone(), decode)] }, check);
